@@ -115,6 +115,13 @@ class Ref(Ty):
             c.assume(z3.Or(*[CLASS_OF(term) == i for i in ids]))
             k = c.choose([CLASS_OF(term) == i for i in ids], site="class:" + self.name)
             return ObjProxy(term, self.variants[k])
+        # typing: the dynamic class is the declared class or one of its registered subclasses
+        # (so references of unrelated classes are provably distinct objects)
+        key = ("cls", term.get_id(), self.cls)
+        if key not in c._pool_seen:
+            c._pool_seen.add(key)
+            ids = sorted({class_id(k2) for k2 in REG.classes if issubclass(k2, self.cls)} | {class_id(self.cls)})
+            c.assume(z3.Or(*[CLASS_OF(term) == i for i in ids]))
         return ObjProxy(term, self.cls)
 
     def unwrap(self, v):
